@@ -1,7 +1,7 @@
 (* Properties/C08.v — Run-space expansion yields exactly the documented ordered list of runs. *)
 From Coq Require Import List String ZArith NArith Bool Arith Permutation Sorted.
 From SV Require Import Common.Prelude Model.RunSpace Gen.RunSpaceGen Proofs.RunSpace.
-From SV Require Model.Loader Proofs.Loader Gen.LoaderGen.
+From SV Require Model.Loader Proofs.Loader Gen.LoaderGen Model.Rows Proofs.Rows Gen.RowsGen.
 Import ListNotations.
 Local Open Scope string_scope.
 
@@ -295,6 +295,33 @@ Example ex_loader_witness_runs :      (* the witness: 2 aligned rows as written,
   option_map (@List.length run) (match expand impl Proofs.Loader.follow_block_witness with Ok r => Some r | Err _ => None end) = Some 2.
 Proof. vm_compute. reflexivity. Qed.
 
+(* ---------- "external sources loaded ... by_position aligning positions": the columns built from the ROWS of a source (JSON / YAML
+   list of mappings, NDJSON lines) are aligned with the rows: position j of every column is a value of row j under that key,
+   whatever keys the rows hold; rows that cannot be aligned are rejected.  Whether the loader tests the column length before it
+   appends is read from run_space.py on this run (hard obligation); without the test the statement is false ---------- *)
+Lemma gen_rows_checked : RowsGen.rows_checked = true.
+Proof. reflexivity. Qed.
+Definition loaded_rows (rows : list Rows.row) : option cols :=
+  if RowsGen.rows_checked then Rows.load_rows rows else Some (Rows.load_rows_unchecked rows).
+Theorem C08_source_rows_aligned : forall rows cs, loaded_rows rows = Some cs ->
+  forall k col, lookup k cs = Some col ->
+    List.length col <= List.length rows /\
+    forall j, j < List.length col -> exists r, nth_error rows j = Some r /\ In (k, nth j col vdef) r.
+Proof. unfold loaded_rows. rewrite gen_rows_checked. exact Proofs.Rows.rows_aligned. Qed.
+Theorem C08_source_rows_refuted_when : RowsGen.rows_checked = false ->
+  exists rows cs k col j, loaded_rows rows = Some cs /\ lookup k cs = Some col /\ j < List.length col /\
+    forall r, nth_error rows j = Some r -> ~ In (k, nth j col vdef) r.
+Proof.
+  intros H. unfold loaded_rows. rewrite H.
+  destruct Proofs.Rows.unchecked_misaligns as [rows [k [col [j [A [B C]]]]]].
+  exists rows, (Rows.load_rows_unchecked rows), k, col, j. repeat split; assumption.
+Qed.
+Example ex_source_rows :
+  map loaded_rows [[[("a", VInt 1); ("b", VInt 10)]; [("a", VInt 2); ("b", VInt 20)]];
+                   [[("a", VInt 1); ("b", VInt 1)]; [("a", VInt 2)]; [("b", VInt 3)]]]
+  = [Some [("a", [VInt 1; VInt 2]); ("b", [VInt 10; VInt 20])]; None].
+Proof. reflexivity. Qed.
+Print Assumptions C08_source_rows_aligned.
 Print Assumptions C08_written_specification_is_read_back.
 Print Assumptions C08_spellings_expand_alike.
 Print Assumptions C08_loader_source_mode_refuted_when.
